@@ -13,7 +13,15 @@ use exmex::DeepEx;
 use serde_json::json;
 
 fn print_histories(tape: &[u32], st: &mut Stats) -> CaseResult {
-    let cfg = HistCfg { prop: "C12", weights: [3, 5, 3, 2, 0, 1, 1], max_steps: 4, check_print: true, check_serde: true, weird_pct: 15 };
+    print_histories_with(tape, st, 0)
+}
+/// the same histories on operands in which about one node in twelve carries a tower of 14-43 unary
+/// operators (beyond the 16 a node stores inline)
+fn print_histories_towers(tape: &[u32], st: &mut Stats) -> CaseResult {
+    print_histories_with(tape, st, 8)
+}
+fn print_histories_with(tape: &[u32], st: &mut Stats, tower_pct: u32) -> CaseResult {
+    let cfg = HistCfg { prop: "C12", weights: [3, 5, 3, 2, 0, 1, 1], max_steps: 4, check_print: true, check_serde: true, weird_pct: 15, tower_pct: tower_pct };
     let out = run_history(tape, st, &cfg)?;
     st.class_if(out.printable, "table printable without ambiguity");
     st.class_if(out.steps >= 1, ">=1 transformation step");
@@ -321,6 +329,11 @@ pub fn def() -> PropDef {
                 name: "print_histories",
                 rule: "tape -> table x pool x 1-4 steps (operate_unary/binary, subs, conversions, helper methods); after every step deep.unparse() and flat.unparse() parse back (FlatEx and DeepEx) with the same variables and value, and serde_json round trip preserves text, variables and value; non-trivial = >=1 step on a printable table; distinct by history",
                 kind: Kind::Tape { len: 500, quick: 25_000, thorough: 1_000_000, f: print_histories },
+            },
+            SubCheck {
+                name: "print_histories_towers",
+                rule: "as print_histories with operands in which about one node in twelve carries a tower of 14-43 unary operators (a node stores 16 inline); non-trivial as print_histories",
+                kind: Kind::Tape { len: 1100, quick: 6250, thorough: 250000, f: print_histories_towers },
             },
             SubCheck {
                 name: "flat_text_identity",
